@@ -444,6 +444,11 @@ def search_text(ck: Ck) -> None:
                     'vec-str-negative-zero' if 'negative-zero' in probs else 'vec-str-not-plain'
                 found.setdefault(key, (x, f'str({v!r}) == {txt!r}', {'call': 'str', 'cls': cls.__name__, 'xyz': [x.hex(), y.hex(), z.hex()]}))
                 continue
+            # join() and repr() print the same three numbers
+            for what, t2 in (('join', v.join(';').split(';')), ('repr', repr(v)[len(cls.__name__) + 1:-1].split(', '))):
+                if t2 != parts and ('vec-str-' + what + '-differs-from-str') not in found:
+                    found['vec-str-' + what + '-differs-from-str'] = (x, f'{what} of {cls.__name__}({x!r}, {y!r}, {z!r}) prints {t2!r}, str() prints {parts!r}',
+                                                                      {'call': what, 'cls': cls.__name__, 'xyz': [x.hex(), y.hex(), z.hex()]})
             # every bracket style, and (c05_parse_format_vec: ANY non-empty whitespace between the numbers) other separators
             for wrap, sep in (('{}', ' '), ('({})', ' '), ('[{}]', ' '), (' <{}> ', ' '), ('{{{}}}', ' '), ('{}', '  '), ('({})', '\t'), ('[ {} ]', ' \n')):
                 text = wrap.format(txt.replace(' ', sep))
@@ -464,6 +469,10 @@ def search_text(ck: Ck) -> None:
                     found.setdefault(key, (x, f'str({a!r}) == {txt!r}', {'call': 'str', 'cls': cls.__name__, 'xyz': [x.hex(), y.hex(), z.hex()]}))
                     continue
                 back = cls.from_str(txt, 77, 77, 77)
+                for what, t2 in (('join', a.join(';').split(';')), ('repr', repr(a)[len(cls.__name__) + 1:-1].split(', '))):
+                    if t2 != parts and ('angle-str-' + what + '-differs-from-str') not in found:
+                        found['angle-str-' + what + '-differs-from-str'] = (x, f'{what} of {a!r} prints {t2!r}, str() prints {parts!r}',
+                                                                            {'call': what, 'cls': cls.__name__, 'xyz': [x.hex(), y.hex(), z.hex()]})
                 ck.count('angle_roundtrip_cases')
                 for p, q in zip(a, back):       # which branch of the theorem: read back directly, or 360.0 stored as 0.0
                     ck.hist('angle_roundtrip_branch', 'wrap-around 360 -> 0' if p - q > 180 else 'direct')
